@@ -60,6 +60,38 @@ func c13Check(c c13Case) fw.Outcome {
 				}
 			}
 		}
+		// the same through wrappers: a one-point collection, a Feature of a Feature, the circle inside two Features
+		pt := geojson.NewPoint(probe)
+		wrapped := geojson.NewFeature(geojson.NewFeature(circ, ""), "")
+		for _, w := range []struct {
+			name string
+			obj  geojson.Object
+		}{
+			{"MultiPoint[p]", geojson.NewMultiPoint([]geometry.Point{probe})},
+			{"GeometryCollection[Point p]", geojson.NewGeometryCollection([]geojson.Object{pt})},
+			{"Feature{Feature{Point p}}", geojson.NewFeature(geojson.NewFeature(pt, ""), "")},
+		} {
+			for _, cl := range []struct {
+				name string
+				got  bool
+			}{
+				{"Circle.Contains(" + w.name + ")", circ.Contains(w.obj)}, {"Circle.Intersects(" + w.name + ")", circ.Intersects(w.obj)},
+				{w.name + ".Within(Circle)", w.obj.Within(circ)},
+			} {
+				if cl.got != want {
+					return fw.Failf(label, "%s = %v, the point is at great-circle distance %.6f m from the centre (%v,%v) of a circle of radius %v m (tolerance %.3g m)",
+						cl.name, cl.got, d, lat, lon, r, tol)
+				}
+			}
+		}
+		for _, po := range []geojson.Object{pt, geojson.NewSimplePoint(probe)} {
+			if got := po.Intersects(wrapped); got != want {
+				return fw.Failf(label, "%T.Intersects(Feature{Feature{Circle}}) = %v at great-circle distance %.6f m from the centre (%v,%v) of a circle of radius %v m (tolerance %.3g m)", po, got, d, lat, lon, r, tol)
+			}
+			if got := po.Within(wrapped); got != want {
+				return fw.Failf(label, "%T.Within(Feature{Feature{Circle}}) = %v at great-circle distance %.6f m from the centre (%v,%v) of a circle of radius %v m (tolerance %.3g m)", po, got, d, lat, lon, r, tol)
+			}
+		}
 	} else {
 		label += "/within-tolerance-of-rim"
 	}
